@@ -8,7 +8,7 @@ BI = {"impl": r"^impl Bitfield$", "impl_header": "impl Bitfield", "impl_name": "
 UNIT = {
     "name": "bf_getters",
     "env": [os.path.join(ENV, "bf_getters_env.rs")],
-    "declared_trusted": {r"external_body": 5},
+    "declared_trusted": {r"external_body": 9},
     "items": [
         {"kind": "struct", "file": CP, "name": "Bitfield"},
         # where the unit starts is computed from the clang offset of its FIRST bit-field, zero-width separators included
@@ -20,5 +20,9 @@ UNIT = {
         {"kind": "fn", "file": CP, "name": "width", **BI, "ret": "r",
          "requires": ["self.data.s_width().is_some()"],        # Bitfield::new asserts it
          "ensures": ["r == self.data.s_width().unwrap()"]},
+        # the allocation of bit-field units follows the packing of the record, whatever its alignment (a packed record aligned to
+        # 2 or more still places bit-fields without regard to their type's boundaries)
+        {"kind": "fn", "file": CP, "name": "compute_bitfield_units", "impl": r"^impl CompInfo$", "impl_nth": 0, "impl_header": "impl CompInfo", "impl_name": "CompInfo", "ret": "r_unit",
+         "ensures": ["final(self).fields.s_allocated_as_packed() == old(self).s_is_packed(ctx, layout)"]},
     ],
 }
